@@ -232,6 +232,33 @@ def execute(trace: dict) -> Result:
                 compare(base, step_numeric_on(U0, net_b, values, opts, zero_d), what + " on a second network sharing the elements (numpy)")
                 compare(base, step_numeric_on(U0, net0, values, opts, zero_d), what + ": canonical network re-stepped after the second one (numpy)")
                 res.faults["elements_shared_by_two_networks"] += 1
+            if var.get("copy"):
+                # a deep copy / pickle round trip of the (used) canonical network contains the same
+                # elements connected in the same way: stepped from the same values it must agree
+                import copy
+                import pickle
+
+                U0, net0 = used
+                mode = var["copy"] if not uspec.get("user_subclasses") else "deepcopy"  # local classes cannot be pickled
+                if mode == "deepcopy":
+                    memo = {}
+                    net_c = copy.deepcopy(net0, memo)
+                    twin_of = lambda el: memo[id(el)]  # noqa: E731
+                else:
+                    els0 = [U0.obj(r) for r in sorted(values)]
+                    net_c, els_c = pickle.loads(pickle.dumps((net0, els0)))
+                    m_ = {id(a): b for a, b in zip(els0, els_c)}
+                    twin_of = lambda el: m_[id(el)]  # noqa: E731
+                ic = {twin_of(el): d for el, d in dyn.numeric_init(U0, values, zero_d).items()}
+                net_c.step(init_conditions=ic, engine=make_engine("numpy"), **opts)
+                got = {}
+                for r in sorted(values):
+                    ns = twin_of(U0.obj(r)).next_states
+                    if ns is not None:
+                        got[r] = {k: np.atleast_1d(np.asarray(v, dtype=float)).copy() for k, v in ns.items()}
+                cur = step_numeric_on(U0, net0, values, opts, zero_d)  # the original, as it is now (possibly renamed / rescaled in place)
+                compare(cur, got, what + f": {mode} of the used network (numpy)")
+                res.faults["copied_network:" + mode] += 1
             if var.get("rename"):
                 res.faults["rename:" + var["rename_mode"]] += 1
             if var.get("scale"):
@@ -368,7 +395,7 @@ def generate(prop: str, run_seed: int, tier: str = "quick") -> dict:
             sc = {}
             for n, ls in leaving.items():
                 if rng.random() < 0.8:
-                    f = rng.choice([0.25, 0.5, 2.0, 3.0, 10.0, 1e-3, 1e3, round(rng.uniform(0.1, 9.0), 3)])
+                    f = rng.choice([0.25, 0.5, 2.0, 3.0, 10.0, 1e-3, 1e3, 1e-13, 1e-15, 1e13, round(rng.uniform(0.1, 9.0), 3)])
                     for l in ls:
                         sc[l] = f
             var["scale"] = sc
@@ -379,6 +406,8 @@ def generate(prop: str, run_seed: int, tier: str = "quick") -> dict:
         var["engine_made"] = bool(also) and rng.random() < 0.6
         var["inplace"] = rng.random() < 0.5
         var["shared"] = rng.random() < 0.5
+        if rng.random() < 0.2:
+            var["copy"] = rng.choice(["deepcopy", "pickle"])
         variants.append(var)
     cfg = {"topology": topo, "vals": rng.getrandbits(32), "opts": opts, "edge": rng.random() < 0.08,
            "zero_d": True if (dyn.has_merging_ramp(topo, U) and "delta" in opts) else rng.random() < 0.3}
@@ -399,6 +428,8 @@ def simplify_op(var: dict):
         yield dict(var, inplace=False)
     if var.get("shared"):
         yield dict(var, shared=False)
+    if var.get("copy"):
+        v = dict(var); del v["copy"]; yield v
     if var.get("ic_order") is not None:
         yield dict(var, ic_order=None)
     b = var["build"]
